@@ -1494,7 +1494,12 @@ where
     } else {
         let mut buf = match dname.canonicalize() {
             Ok(path) => path,
-            Err(e) if e.kind() == io::ErrorKind::NotFound => {
+            // (ENOTDIR: a regular file where the path wants a directory -- `redo-ifcreate f/x`
+            // with f a file.  Nothing exists below f; the name is kept as written too.)
+            Err(e)
+                if e.kind() == io::ErrorKind::NotFound
+                    || e.raw_os_error() == Some(libc::ENOTDIR) =>
+            {
                 let dname = if dname.is_absolute() {
                     dname
                 } else {
